@@ -422,8 +422,8 @@ def _attr_count_pos(t, body):
     if flags & 8:
         r.u32(), r.u32()
     pos = r.p
-    if r.u32() > 1000 and pos + 4 <= len(body):
-        return pos
+    if r.u32() > 1000:
+        return pos  # (the count may straddle the end of a truncated packet: the rest reads as zeros)
     return None
 
 
@@ -488,7 +488,7 @@ def _serve(ctx, case, forced):
                 pos = _attr_count_pos(t, body)
                 if pos is not None:
                     ctx.exclude("attr-extended-count-unbounded")
-                    body = body[:pos] + u32(1000) + body[pos + 4 :]
+                    body = body[:pos] + u32(1000) + body[pos + 4 :]  # body[:pos] is complete whenever count > 0
             if not pump.send(frame(t, rid, body)):
                 sent.append((t, rid, body))
                 alive = False
@@ -687,7 +687,8 @@ def run_client_once(ctx, case, observe):
             f = wf.get(slot)
             if f is None:
                 return None
-            if _excluded("clienthang") and risk.get(slot) and (not f.pipelined or len(f._reqs) + n > 100):
+            nreq = n * max(1, (size + 32767) // 32768)
+            if _excluded("clienthang") and risk.get(slot) and (not f.pipelined or len(f._reqs) + nreq > 100):
                 info["excluded"] += 1
                 ctx.exclude("write-drain-after-consumed-replies")
                 return None
@@ -1154,8 +1155,8 @@ def run(ctx):
         if EXCLUDE[name] is None and name not in _present:
             execute(ctx, probe)
     ctx.note("steering", {k: _excluded(k) for k in EXCLUDE})
-    ctx.explore(server_case_st(max_body=ctx.scale(25, 57)), lambda c: execute(ctx, c), ctx.scale(450, 3500))
-    ctx.explore(client_case_st(), lambda c: execute(ctx, c), ctx.scale(120, 600), shrink=False, seed_offset=1)
+    ctx.explore(server_case_st(max_body=ctx.scale(25, 57)), lambda c: execute(ctx, c), ctx.scale(450, 2500))
+    ctx.explore(client_case_st(), lambda c: execute(ctx, c), ctx.scale(120, 400), shrink=False, seed_offset=1)
 
 
 def replay(ctx, case):
